@@ -81,3 +81,12 @@ Proof.
       split; [exact Fa|]. split; [exact Fs|]. split; [exists (k + 0)%Z; split; [exact Ea|lia]|].
       split; [rewrite Ea, Es, Ed, plus_IZR; simpl; lra|rewrite Es; apply Rabs_le; lra].
 Qed.
+
+(* WITHOUT the fold the computation is not normalised: the tail of day_frac as it stood before repair D25, on the pair that
+   (-3.5000000000000004) / 7 hands it, returns count 0 and a fraction below -1/2 - while the folded tail returns (-1, 1/2 - 2^-53 + ...).
+   (Evaluated by the kernel on primitive floats; replayed on the implementation this was the finding.) *)
+Lemma df_tail0_refuted :
+  let s := (-0x1.0000000000001p-1)%float in let e := 0x1.b6db6db6db6dbp-55%float in
+  (snd (df_tail0 s e) <? - 0.5)%float = true /\ (fst (df_tail0 s e) =? 0)%float = true /\
+  (- 0.5 <=? snd (df_tail s e))%float = true /\ (snd (df_tail s e) <=? 0.5)%float = true /\ (fst (df_tail s e) =? - 1)%float = true.
+Proof. vm_compute. repeat split; reflexivity. Qed.
